@@ -188,3 +188,6 @@ Theorem C10_theta_newest :
     c_theta (compact (X ++ [x0; x1]) (G ++ [g0; g1])) == dot_raw y y / dot_raw s y.
 Proof. exact theta_newest. Qed.
 Print Assumptions C10_theta_newest.
+
+(* Non-vacuity: concrete histories of Proofs/BfgsProofs.v / BfgsGeneral.v evaluated by computation. *)
+Example C10_matrix_nonvacuous := (conj ex_curvature (conj ex_theta_newest ex_general)).
